@@ -16,7 +16,7 @@ func (r *IdentificationListDataType) UpdateList(remoteWrite, persist bool, newLi
 		r.IdentificationData = data
 	}
 
-	return persist, success
+	return data, success
 }
 
 // SessionIdentificationListDataType
@@ -35,7 +35,7 @@ func (r *SessionIdentificationListDataType) UpdateList(remoteWrite, persist bool
 		r.SessionIdentificationData = data
 	}
 
-	return persist, success
+	return data, success
 }
 
 // SessionMeasurementRelationListDataType
@@ -54,5 +54,5 @@ func (r *SessionMeasurementRelationListDataType) UpdateList(remoteWrite, persist
 		r.SessionMeasurementRelationData = data
 	}
 
-	return persist, success
+	return data, success
 }
